@@ -235,7 +235,7 @@ def check_kmer_eq(chk, cfg, b, pol, what, rhs):
 
 
 def check_slice_str(chk, cfg, b, what):
-    paths, _ = an.analyse(cfg, b)
+    paths, _ = an.analyse(cfg, b, policy=an.ForkPolicy())
     rets = [p for p in paths if p.end == "return"]
     conts = [p for p in paths if p.end == "continue"]
     blen = ("call", "core::slice::<impl [u8]>::len", (("call", "core::str::<impl str>::as_bytes", (P(2),), None),), None)
